@@ -9,25 +9,31 @@ Fixpoint abs_times (prev : Z) (l : list (bool * Z * Z * Z)) : list Z :=
 
 Definition on_grid (tpq : Z) (t : Z) : Prop := (t * TPB) mod tpq = 0.
 
-Lemma exact_div tpq a b : 0 < tpq -> on_grid tpq a -> on_grid tpq b ->
-  ((b - a) * TPB) / tpq = b * TPB / tpq - a * TPB / tpq.
+(* the running sum of the written deltas is, for EVERY event, the truncated exact position: no error adds up *)
+Theorem ticks_floor tpq l : forall last, abs_times last (with_deltas tpq last l) = map (fun e => tick_of tpq (me_time e)) l.
 Proof.
-  unfold on_grid. intros Hq Ha Hb.
-  pose proof (Z.div_mod (a * TPB) tpq ltac:(lia)) as Da. pose proof (Z.div_mod (b * TPB) tpq ltac:(lia)) as Db.
-  rewrite Ha in Da. rewrite Hb in Db.
-  replace ((b - a) * TPB) with ((b * TPB / tpq - a * TPB / tpq) * tpq) by lia.
-  apply Z.div_mul. lia.
+  induction l as [|e l IH]; intros last; [reflexivity|]. cbn [with_deltas abs_times map].
+  replace (last + (tick_of tpq (me_time e) - last)) with (tick_of tpq (me_time e)) by lia. f_equal. apply IH.
 Qed.
 
-(* the running sum of the truncated per-event deltas is the exact tick position of every event *)
-Theorem ticks_exact tpq l : 0 < tpq -> forall prev, on_grid tpq prev -> Forall (fun e => on_grid tpq (me_time e)) l ->
-  abs_times (prev * TPB / tpq) (with_deltas tpq prev l) = map (fun e => me_time e * TPB / tpq) l.
+(* hence an event whose time is a whole number of ticks is written exactly there (whatever the other events are), and every
+   other event less than one tick early *)
+Lemma tick_exact tpq t : 0 < tpq -> on_grid tpq t -> tick_of tpq t * tpq = t * TPB.
 Proof.
-  intros Hq. induction l as [|e l IH]; intros prev Hp Hl; [reflexivity|].
-  inversion Hl as [|? ? He Hl']; subst. cbn [with_deltas abs_times map].
-  rewrite (exact_div tpq prev (me_time e) Hq Hp He).
-  replace (prev * TPB / tpq + (me_time e * TPB / tpq - prev * TPB / tpq)) with (me_time e * TPB / tpq) by lia.
-  f_equal. apply IH; assumption.
+  unfold on_grid, tick_of. intros Hq H. pose proof (Z.div_mod (t * TPB) tpq ltac:(lia)) as D. rewrite H in D. lia.
+Qed.
+
+Lemma tick_close tpq t : 0 < tpq -> tick_of tpq t * tpq <= t * TPB < (tick_of tpq t + 1) * tpq.
+Proof.
+  unfold tick_of. intros Hq. pose proof (Z.div_mod (t * TPB) tpq ltac:(lia)) as D.
+  pose proof (Z.mod_pos_bound (t * TPB) tpq Hq) as B. lia.
+Qed.
+
+Theorem ticks_exact tpq l last j e : 0 < tpq -> nth_error l j = Some e -> on_grid tpq (me_time e) ->
+  exists x, nth_error (abs_times last (with_deltas tpq last l)) j = Some x /\ x * tpq = me_time e * TPB.
+Proof.
+  intros Hq Hn Hg. rewrite ticks_floor. exists (tick_of tpq (me_time e)). split; [|apply tick_exact; assumption].
+  rewrite nth_error_map, Hn. reflexivity.
 Qed.
 
 (* ================= the events of a track: one on/off pair per row, ordered ================= *)
